@@ -339,14 +339,16 @@ class GeometricGrid(FixedGrid):
         return self.normalized(N)[1]
 
     def bounds_T(self, T_local, t0_local, k, T, N):
+        # Intervals grow monotonically: bounding the first and the last one suffices
+        # (callers pass k in 0..N-1)
         if self.localize_T:
-            if k==0 or k==-1:
+            if k==0 or k==N-1:
                 yield (self.min <= (T_local[k] <= self.max), {})
         else:
             n = self.normalized(N)
             if k==0:
                 yield (self.min <= (T*n[1] <= self.max),{})
-            if k==-1:
+            if k==N-1 and N>1:
                 yield (self.min <= (T*(n[-1]-n[-2]) <= self.max),{})
         for e in FixedGrid.bounds_T(self, T_local, t0_local, k, T, N):
             yield e
